@@ -92,7 +92,7 @@ CLAIMED.update({
  "C15": {
   "technique": "TLA+ model checking of spec/TaExchange.tla with TLC (all sequences, bounded, with an adversary); TLC-generated behaviours executed on a real TA proxy, the real offline signer and real TA children; traces validated by TLC against TaExchangeTrace.tla",
   "level": "model_checking",
-  "text": "TaExchange.tla defines ProxyAccepts (a request is open, nonce = open nonce, signed by the associated signer, clear text = signed text) and SignerAccepts (signed by the associated proxy, clear text = signed text) and states RefusedUnchanged, OneResponsePerRequest, DeliveredExactlyOnce, TaNumbersIncrease. TLC checks all sequences for two children with two requests each, two signer instances, another proxy, signer re-initialisation, and an adversary that presents any message ever sent as is, with changed nonce, changed content, the clear text of another message, or re-signed by a fresh key or the proxy's own key; ten wrong models are each caught. Binding: TLC simulation (depth 40) plus all / sampled depth-6 behaviours run on a real TA proxy (ta_proxy_*, rfc6492 hand-over via ca_sync_parent), real local child CAs (first certification, key roll, activation) and the real offline signer (cli::ta::signer::TrustAnchorSignerManager), with a second signer and proxy instance; altered messages are made through serde or re-signing; TA manifest and CRL numbers are decoded from the proxy's objects and the repository after every step.",
+  "text": "TaExchange.tla defines ProxyAccepts (a request is open, nonce = open nonce, signed by the associated signer, clear text = signed text) and SignerAccepts (signed by the associated proxy, clear text = signed text) and states RefusedUnchanged, OneResponsePerRequest, DeliveredExactlyOnce, TaNumbersIncrease. TLC checks all sequences for two children with two requests each, two signer instances, another proxy, signer re-initialisation, and an adversary that presents any message ever sent as is, with changed nonce, changed content, the clear text of another message, or re-signed by a fresh key or the proxy's own key; eleven wrong models are each caught (among them: a response replaces what still waits for the child). The proxy keeps a request and a response slot per child key and processes one provisioning request per call; a child whose requests reach it one at a time (RWants / SyncOne; on the code through the cfg-gated entry to rfc6492_process_request, because krill refuses signed messages addressed to the trust anchor and a hosted child presents all its requests in one synchronisation) can have a response waiting while another of its requests is answered: both must be delivered, each once. Binding: TLC simulation (depth 40) plus all / sampled depth-6 behaviours run on a real TA proxy (ta_proxy_*, rfc6492 hand-over via ca_sync_parent), real local child CAs (first certification, key roll, activation) and the real offline signer (cli::ta::signer::TrustAnchorSignerManager), with a second signer and proxy instance; altered messages are made through serde or re-signing; TA manifest and CRL numbers are decoded from the proxy's objects and the repository after every step.",
   "note": "Assumed: signature strength; the signer may re-process a request it has already seen; re-initialisation continues the numbering as the operator would; audit-trail version bumps of refused commands are not counted as change.",
   "ref": "§6 C15, §4.5", "engines": ["TLC", "kv-auth"]},
  "C16": {
